@@ -1,2 +1,44 @@
-import AlgoVerif.Common
-/-! # C07 — property theorems (none yet) -/
+import AlgoVerif.Model.C07
+import AlgoVerif.Model.C07Radix
+import AlgoVerif.Spec.C07
+import AlgoVerif.Proofs.C07Insertion
+import AlgoVerif.Proofs.C07Simple
+import AlgoVerif.Proofs.C07Shell
+/-!
+# C07 — every sort returns the sorted permutation of its input
+
+Statements only; the proofs are in `Proofs/C07*.lean`.  Every theorem says that the Model of the
+Go function, run on an arbitrary slice (no length bound) with an arbitrary comparator that is a
+total preorder, returns `ok` (it neither indexes out of range nor runs out of loop fuel) and that
+the result is sorted and a permutation of the input (`IsSortOf`).
+-/
+open AlgoVerif AlgoVerif.C07
+
+/-- a non-injective total preorder used by the non-vacuity examples: compare `key % 3` only -/
+def C07.exCmp (a b : Int × Int) : Int := (a.1 % 3) - (b.1 % 3)
+
+theorem C07.exCmp_tp : TotalPreorder C07.exCmp :=
+  ⟨by intro a b; unfold C07.exCmp; omega, by intro a b c; unfold C07.exCmp; omega⟩
+
+theorem C07_insertion {α : Type} (cmp : α → α → Int) (tp : TotalPreorder cmp) (a : Array α) :
+    ∃ out, insertion cmp a = .ok out ∧ IsSortOf cmp out a := insertion_spec tp a
+
+example : insertion C07.exCmp #[(5, 0), (3, 1), (2, 2), (4, 3), (0, 4)] = .ok #[(3, 1), (0, 4), (4, 3), (5, 0), (2, 2)] := by decide
+
+theorem C07_selection {α : Type} (cmp : α → α → Int) (tp : TotalPreorder cmp) (a : Array α) :
+    ∃ out, selection cmp a = .ok out ∧ IsSortOf cmp out a := selection_spec tp a
+
+example : selection C07.exCmp #[(5, 0), (3, 1), (2, 2), (4, 3), (0, 4)] = .ok #[(3, 1), (0, 4), (4, 3), (2, 2), (5, 0)] := by decide
+
+theorem C07_shell {α : Type} (cmp : α → α → Int) (tp : TotalPreorder cmp) (a : Array α) :
+    ∃ out, shell cmp a = .ok out ∧ IsSortOf cmp out a := shell_spec tp a
+
+/-- `Shuffle` yields a permutation, for every outcome of the random source that respects the
+contract of `r.Intn` -/
+theorem C07_shuffle {α : Type} (choice : Nat → Int) (a : Array α) (hc : IntnContract choice a.size) :
+    ∃ out, shuffle choice a = .ok out ∧ out.toList.Perm a.toList := by
+  obtain ⟨out, h1, h2⟩ := shuffle_spec a hc
+  exact ⟨out, h1, Array.perm_iff_toList_perm.1 h2⟩
+
+example : IntnContract (fun i => if i = 0 then 2 else 0) 3 := by
+  intro i hi; dsimp only; split <;> omega
